@@ -44,7 +44,7 @@ CHECKS = {
  },
  'C15': {
   'category': 'exploration',
-  'text': "For each generated multi-file world the reference run is compared with runs that perturb, singly and combined, everything the property names: iteration order of every reachable set (SimSet policies per creation site), order/spelling/duplication/symlink aliases of -I directories, cwd and project location, unrelated environment variables/HOME, default text and stdout encodings, the simulated clock, a pre-existing output file; a cross-process tier runs the same world materialised on the real file system in fresh interpreters under different real PYTHONHASHSEED values (which also cross-validates SimFS against the real FS). Exit status, image and every pretty-print format (stdout or file) must be byte-identical. Seeded search over schedules/environments.",
+  'text': "For each generated multi-file world the reference run is compared with runs that perturb, singly and combined, everything the property names: iteration order of every reachable set (SimSet policies per creation site), order/spelling/duplication/symlink aliases of -I directories, cwd and project location, unrelated environment variables/HOME, default text and stdout encodings, the simulated clock, a pre-existing output file, output writes that are cut short or fail (a run that still reports success must have produced the reference outputs); inputs may contain text outside ASCII (comments, strings, ISA comments), so the locale matters wherever the tool lets it; a cross-process tier runs the same world materialised on the real file system in fresh interpreters under different real PYTHONHASHSEED values (which also cross-validates SimFS against the real FS). Exit status, image and every pretty-print format (stdout or file) must be byte-identical. Seeded search over schedules/environments.",
   'design_ref': 'DESIGN.md section 4 (C15)',
   'note': "In-process set-order control reaches set(...) calls and module-level set constants; set literals/comprehensions inside functions are covered only by the real-hash-seed tier. Echoes of input paths are normalised; stderr is compared by success/failure only.",
   'technique': 'deterministic simulation: seeded schedule (set-iteration order) and environment perturbation of one simulated process vs a reference run, plus real-hash-seed cross-process replay',
